@@ -101,8 +101,13 @@ fn main() {
         }
         "evt" => {
             let mut run = Runner::new(&args);
+            // first record: asks the validator to check the structure of the recorded maps
+            run.raw(util::obj(vec![("fam", serde_json::json!("cfgcheck")), ("verdict", serde_json::json!("ok"))]));
             if let Some(p) = args.get("in") {
                 evgen::replay(&mut run, p, args.num("seed", 1));
+            }
+            if let Some(p) = args.get("mcp") {
+                evgen::from_mcp(&mut run, p, args.num("seed", 1), args.num("mcp-stride", 1) as usize);
             }
             evgen::random(&mut run, args.num("seed", 1), args.num("n", 100));
             let stride = args.num("stride", 64) as usize;
